@@ -15,12 +15,15 @@ ENGINES = {
         timing_sensitive=True,
         tier_in_focus=True,
         timing_props=[17],
-        rule='random configuration trees (1-2 roots, depth <= 3, <= 10 nodes, sync/fanout/async, workers 1-3, buffers 1-3, disabled and '
-             'discarding nodes, sync/async error handlers) driven (a) in lockstep through gated scenarios of 5-45 generator intents '
-             '(emit / release k-th waiting call with outcome / complete async / end source / fail source / wait) resolved by the model, '
-             'snapshot compared after every command, and (b) free-running with scripted outcomes and latencies, whole trace judged by '
-             'trace_ok/terminal_ok; non-trivial = the case executed at least one emit and one release (tags 10 and 11-15) or is a clean '
-             'free run (30); distinct = distinct input trees',
+        rule='random configuration trees (1-2 roots, depth <= 3, <= 10 nodes; thorough: <= 3 roots, depth <= 4, <= 17 nodes; sync/fanout/async kinds, workers 1-3, '
+             'buffers 1-3, disabled and discarding nodes incl. roots, sync/async error handlers with 1-3 workers) driven (a) in lockstep through gated '
+             'scenarios of 5-45 (thorough 20-110) generator intents (emit / release the k-th waiting call with outcome pass-same-event, transform, '
+             'filter, fail, fanout 0-3, defer / complete an async event / end the source by script or through Executor.Shutdown() / fail the source / '
+             'wait for Execute) resolved by the model, with drain, stall-all-but-one and stall phases; the snapshot (channel lengths, calls at the '
+             'gate, events in flight, counters, Shutdown flags, Execute returned) is compared after every command; and (b) free-running with '
+             'scripted outcomes and latencies, slow or stalled discarding consumers ("comb" trees with a multi-worker root), slow error handlers '
+             'with many failures, failing sources; the whole trace is judged by trace_ok/terminal_ok plus the stall/bufferfull/clean-end clauses; '
+             'non-trivial = at least one branch tag >= 10 (the case executed a command / ended); distinct = distinct input trees',
         tags={'5': 'scenario truncated at an ambiguous situation', '6': 'model out of fuel/panic (harness error)', '10': 'emit',
               '11': 'release pass', '12': 'release filter', '13': 'release fail', '14': 'release fanout', '15': 'release later (async)',
               '16': 'async completion', '17': 'source ended', '18': 'source failed+restarted', '19': 'waited for Execute',
